@@ -64,7 +64,11 @@ Edits ==
     {[k |-> "AddStructure", name |-> n] : n \in {NewS, NewS2}}
     \cup {[k |-> "AddProperty", target |-> t, name |-> n, ty |-> ty, optional |-> o] :
             t \in Targets \cup {NewS}, n \in PropNames, ty \in TyNames, o \in BOOLEAN}
-    \cup {[k |-> "AddExtends", target |-> NewS, parent |-> p] : p \in {"Position", "WorkDoneProgressParams", "HoverParams", "HoverRegistrationOptions"}}
+    \cup {[k |-> "AddExtends", target |-> NewS, parent |-> p] :
+            p \in {"Position", "WorkDoneProgressParams", "HoverParams", "HoverRegistrationOptions", "VersionedTextDocumentIdentifier", "SignatureHelp"}}
+    \* a new structure RE-DECLARES a property it inherits (as CreateFile re-declares kind): the nearest declaration wins
+    \cup {[k |-> "OverrideProperty", target |-> NewS, name |-> n, ty |-> ty, optional |-> o] :
+            n \in {"version", "activeParameter"}, ty \in {"uinteger", "integer"}, o \in BOOLEAN}
     \cup {[k |-> "AddExtends", target |-> NewS2, parent |-> NewS]}
     \cup {[k |-> "AddMixin", target |-> NewS, parent |-> p] : p \in {"PartialResultParams", "WorkDoneProgressParams", "HoverOptions"}}   \* HoverOptions has a mixin of its own
     \cup {[k |-> "AddEnum", name |-> NewE, base |-> b] : b \in {"string", "uinteger"}}
@@ -119,6 +123,10 @@ Pre(e) ==
             /\ (~e.optional => ~ClosesCycle(e.target, TyPool[e.ty]))
             \* a required property cannot be added to a structure other declarations' minimal values rely on
             \* without changing every producer: the generator has no opinion, so both are allowed
+      [] e.k = "OverrideProperty" ->
+            /\ \E i \in DOMAIN svScript : svScript[i].k = "AddStructure" /\ svScript[i].name = e.target
+            /\ e.name \in AllFlatNames(ParentsAdded \cap SName) /\ e.name \notin AddedProps(e.target)
+            /\ ~\E i \in DOMAIN svScript : svScript[i].k = "OverrideProperty"
       [] e.k \in {"AddExtends", "AddMixin"} ->
             /\ \E i \in DOMAIN svScript : svScript[i].k = "AddStructure" /\ svScript[i].name = e.target
             /\ (e.parent \in SName \/ (e.parent = NewS /\ e.target = NewS2)) /\ e.parent \notin ParentsAdded
@@ -201,7 +209,7 @@ FrameOK == /\ \A l \in Lists5 :
 HasPropNamed(s, n) == \E i \in DOMAIN s.f.properties.a : s.f.properties.a[i].f.name.s = n
 EffectOK(e) ==
     CASE e.k.s = "AddStructure" -> e.touch.s \notin ListNames(Base, "structures") /\ e.touch.s \in ListNames(Evo, "structures")
-      [] e.k.s = "AddProperty" ->
+      [] e.k.s \in {"AddProperty", "OverrideProperty"} ->
             LET s == Decl(Evo, "structures", e.touch.s) IN
             \E i \in DOMAIN s.f.properties.a : JEq(s.f.properties.a[i], e.ins)
       [] e.k.s \in {"AddExtends", "AddMixin"} ->
